@@ -132,6 +132,9 @@ Definition read_number (l : bytes) : bytes * bytes :=
 
 Definition tok (t : ttype) (l : bytes) : token := {| ttyp := t; tlit := l |}.
 
+(* string(l.ch) for a byte: Go converts the byte to the rune of that number, whose UTF-8 form has two bytes from 128 on *)
+Definition rune_bytes (c : N) : bytes := if c <? 128 then [c] else [192 + c / 64; 128 + c mod 64].
+
 (* NextToken: the token and the remaining input *)
 Definition next_token (input : bytes) : token * bytes :=
   let l := skip_ws input in
@@ -157,7 +160,7 @@ Definition next_token (input : bytes) : token * bytes :=
         let (w, r') := read_ident_or_kw l in (tok (lookup_kw keywords w) w, r')
       else if is_digit c then
         let (n, r') := read_number l in (tok TNumber n, r')
-      else (tok TOperator [c], r)
+      else (tok TOperator (rune_bytes c), r)
   end.
 
 (* the whole token stream, EOF included; fuel = input length + 1 always suffices *)
